@@ -833,6 +833,20 @@ func (env *CEnv) call(x *CExpr) CV {
 	if tv := env.tryType(x.X); tv != nil && len(x.Args) == 1 {
 		return env.convert(env.eval(x.Args[0]), tv)
 	}
+	// contract-level definition (macro)
+	if x.X.Kind == "ident" {
+		if d := env.e.P.Defines[x.X.Name]; d != nil {
+			if len(d.Params) != len(x.Args) {
+				cfail("%s takes %d arguments", d.Name, len(d.Params))
+			}
+			sub := env.child()
+			for i, a := range x.Args {
+				sub.vars[d.Params[i]] = env.eval(a)
+			}
+			sub.lookup = nil
+			return sub.eval(d.E)
+		}
+	}
 	// spec function
 	if x.X.Kind == "ident" {
 		if fn := env.e.vc.specs.Fns[x.X.Name]; fn != nil {
